@@ -22,7 +22,7 @@ type c16 struct{}
 func init() { fw.Register(c16{}) }
 
 var c16Cmds = []string{"view", "view-raw", "diff", "copy", "sum", "sum-copy", "sum-diff", "generate"}
-var c16Faults = []string{"none", "none", "textout-missing-dir", "textout-is-dir", "textout-unwritable", "textout-dev-full", "source-missing", "source-garbage", "source-truncated", "dest-readonly-dir", "dest-parent-is-file", "layout-mismatch", "dest-missing"}
+var c16Faults = []string{"none", "none", "textout-missing-dir", "textout-is-dir", "textout-unwritable", "textout-dev-full", "source-missing", "source-garbage", "source-truncated", "dest-readonly-dir", "dest-parent-is-file", "layout-mismatch", "dest-missing", "empty-sources-dest-absent"}
 var c16Archs = []string{"all", "first", "last", "n", "-2"}
 var c16Windows = []string{"default", "past-inside", "future", "older-than-finest", "older-than-all", "degenerate"}
 var c16TextOuts = []string{"file", "", "-"}
@@ -31,7 +31,7 @@ func (c16) Meta() fw.Meta {
 	return fw.Meta{
 		ID: "C16",
 		Rule: "case = one invocation of the real binary from the product subcommand {view, view-raw, diff, copy, sum, sum-copy, sum-diff, generate} x archive selection {all, first, last, n (out of range), -2} x window {default, past inside, future, older than the finest retention, older than all, degenerate} " +
-			"x fault {none, -text-out in a non-existent directory / is a directory / unwritable (child runs as uid 65534) / on a full device, source missing / garbage / truncated, destination directory read-only for the child's uid / parent is a regular file, layout mismatch, destination missing} x -text-out {file, empty, stdout}. " +
+			"x fault {none, -text-out in a non-existent directory / is a directory / unwritable (child runs as uid 65534) / on a full device, source missing / garbage / truncated, destination directory read-only for the child's uid / parent is a regular file, layout mismatch, destination missing, never-written sources with an absent destination} x -text-out {file, empty, stdout}. " +
 			"quick covers every (subcommand, fault) and (subcommand, archive selection) pair with windows and text-out modes cycling; thorough enumerates the whole product. " +
 			"oracle: output never contains a Go panic/fatal error and the process is not killed by a signal; exit 0 (or 1 for diff/sum-diff) => the work is observable: the -text-out file exists and holds the command's output (header, now: lines, the number of point lines the library computes for that window), copy/sum-copy destinations satisfy the C08/C11 effect oracle, generate's file exists with the requested header; " +
 			"an unopenable or unflushable -text-out, a missing/garbage/truncated input, an out-of-range archive id, an uncreatable destination or a layout mismatch => exit != 0 (the exact verdict for a missing side of diff is C09's business). " +
@@ -40,7 +40,7 @@ func (c16) Meta() fw.Meta {
 			"the harness runs as root and drops the child to uid 65534 for the permission faults; scratch directories are made world-traversable for those cases",
 			"point-line counts are only compared when the second did not change across the process",
 		},
-		Obligations: []string{"invocations", "success_effect_checked", "fault_reported", "textout_file_checked", "absent_series_invocations", "out_of_range_archive_reported", "diff_missing_side_exit1", "uid_dropped_runs", "two_item_fault_runs"},
+		Obligations: []string{"invocations", "success_effect_checked", "fault_reported", "textout_file_checked", "absent_series_invocations", "out_of_range_archive_reported", "diff_missing_side_exit1", "uid_dropped_runs", "two_item_fault_runs", "created_with_nothing_to_copy_runs"},
 		Workers:     12,
 		Level:       "fault_enumeration",
 	}
@@ -252,6 +252,24 @@ func (c16) Run(c *fw.Ctx) {
 			writeFixture(genDest, l, genContent(r, l, now, 0.5), now)
 			expectFail = "destination exists"
 		}
+	case "empty-sources-dest-absent":
+		// not a fault at all: never-written sources and no destination yet. copy / sum-copy must still create a
+		// destination that every other command can open (the header must reach the disk)
+		if cmdName == "copy" || cmdName == "sum-copy" {
+			for _, n := range []string{"a.wsp", "b.wsp"} {
+				p := filepath.Join(srcBase, item, n)
+				os.Remove(p)
+				db, err := createFile(p, l)
+				if err != nil {
+					panic(err)
+				}
+				db.Sync()
+				db.Close()
+			}
+			os.Remove(destFile)
+			os.Remove(sumDest)
+			c.Count("created_with_nothing_to_copy_runs", 1)
+		}
 	case "dest-missing":
 		if cmdName == "diff" || cmdName == "sum-diff" {
 			os.Remove(destFile)
@@ -447,6 +465,25 @@ func (c16) Run(c *fw.Ctx) {
 				return
 			}
 		}
+	}
+	if fault == "empty-sources-dest-absent" && (cmdName == "copy" || cmdName == "sum-copy") {
+		p := destFile
+		if cmdName == "sum-copy" {
+			p = sumDest
+		}
+		img := readFileOrNil(p)
+		wantH := model.EncodeHeader(l)
+		if img == nil || int64(len(img)) != l.FileSize() || !bytes.Equal(img[:len(wantH)], wantH) {
+			c.Violationf("silent-success:created-destination-unusable", det, "%s exited 0 but the destination it created is missing or carries no valid header", cmdName)
+			return
+		}
+		// and a following command can work with it
+		if r2 := runCLI(c, "view", "-src-base", filepath.Dir(p), "-src", filepath.Base(p), "-text-out", ""); r2.Exit != 0 {
+			c.Violationf("silent-success:created-destination-unusable", fw.J{"scenario": sc, "run": res.brief(), "view": r2.brief()}, "the destination created by %s cannot be viewed afterwards (exit %d)", cmdName, r2.Exit)
+			return
+		}
+	}
+	switch cmdName {
 	case "generate":
 		img := readFileOrNil(genDest)
 		wantH := model.EncodeHeader(l)
